@@ -39,25 +39,37 @@ def removal_census(fx, res, rule):
     removes an id taken from `arg.overrides` (forward) or from the collected list of present args whose `overrides`
     contain this arg (backward).  Shared with C03 (a removed group/arg record silently disables its relations)."""
     n = 0
+    kinds = []
     for b in fx.bodies(r"^clap_builder::parser::(parser|validator)::"):
         for c in b.calls_to(r"ArgMatcher::remove$"):
             n += 1
             e = expr(b, c.args[1])
+            top = b
+            while top.kind == "Closure" and top.parent is not None:
+                top = top.parent
+            fn_ = top.q.rsplit("::", 1)[1]
+            if b is not top:
+                # iterator form: xs.for_each(|x| matcher.remove(x)) — the removed id is the element of the iterated collection
+                feed = closure_feed(fx, b)
+                if feed and feed[1].is_(r"Iterator::(for_each|map|inspect)$") and len(b.locals) > 2 and e in (b.locals[2][1], "arg2"):
+                    e = "next(into_iter(%s))#Some.0" % re.sub(r"^(into_)?iter\((.*)\)$", r"\2", feed[2])
             okf = re.fullmatch(r"next\(into_iter\((iter\()?arg\.overrides\)?\)\)#Some\.0", e) is not None
             okb_ = False
             m = re.fullmatch(r"next\(into_iter\((new\(\)|with_capacity\([^()]*\))\)\)#Some\.0", e)   # a locally collected Vec
-            if not okf and m and b.q.endswith("::remove_overrides"):
+            if not okf and m and fn_ == "remove_overrides":
                 # the iterated vector must be filled only by pushes guarded by `<other>.overrides.contains(arg.id)`
-                pushes = [p for p in b.calls_to(r"Vec::push$")]
-                okb_ = bool(pushes) and all(any(re.match(r"^T:contains\(.*\.overrides,get_id\(arg\)\)$", g) for g in guard_strs(b, p.bb)) for p in pushes)
-            if b.q.endswith("::react") and e == "get_id(arg)":
+                pushes = [p for t in tree(top) for p in t.calls_to(r"Vec::push$")]
+                okb_ = bool(pushes) and all(any(re.match(r"^T:contains\(.*\.overrides,get_id\(arg\)\)$", g) for g in guard_strs(p.body, p.bb)) for p in pushes)
+            if fn_ == "react" and e == "get_id(arg)":
                 # the reacting argument's own record is replaced by the occurrence being recorded (Set/SetTrue/SetFalse/Count)
                 sc_ = [x for x in b.calls_to(r"Parser::start_custom_arg$") if x.bb in b.reachable(c.target if c.target is not None else c.bb)]
                 res.check(bool(sc_), rule, "removal|react|own-record", c.where(), "own record replaced by the new occurrence", "react removes the argument's record without recording the new occurrence")
                 continue
-            res.check(b.q.endswith("::remove_overrides") and (okf or okb_), rule, "removal|%s|%s" % (b.q.rsplit("::", 1)[1], "forward" if okf else "backward" if okb_ else "other"), c.where(),
-                      "removes an overridden / overriding argument's record", "ArgMatcher::remove(%s) in %s: a presence record is removed for something that is not an overridden argument (relations declared on it are silently disabled)" % (e[:80], b.q.rsplit("::", 1)[1]))
+            kinds.append((fn_, "forward" if okf else "backward" if okb_ else "other"))
+            res.check(fn_ == "remove_overrides" and (okf or okb_), rule, "removal|%s|%s" % (fn_, "forward" if okf else "backward" if okb_ else "other"), c.where(),
+                      "removes an overridden / overriding argument's record", "ArgMatcher::remove(%s) in %s: a presence record is removed for something that is not an overridden argument (relations declared on it are silently disabled)" % (e[:80], fn_))
     res.floor(rule, "ArgMatcher::remove call sites in the parser", n, 2)
+    return kinds
 
 
 def run(ctx):
@@ -172,26 +184,14 @@ def run(ctx):
 
     # ---- R7.4 override removal
     ro = fx.body("clap_builder::parser::parser::Parser::remove_overrides")
-    rems = ro.calls_to(r"ArgMatcher::remove$")
-    res.floor("R7.4", "matcher.remove calls in remove_overrides", len(rems), 2)
-    e0 = [expr(ro, c.args[1]) for c in rems]
-    fwd = [e for e in e0 if re.search(r"next\(into_iter\((arg\.overrides|iter\(arg\.overrides)", e)]
-    back = [e for e in e0 if e not in fwd]
-    res.check(bool(fwd), "R7.4", "forward", ro.where(), "every id in arg.overrides is removed", "remove_overrides no longer removes the ids listed in arg.overrides")
-    # backward: loop over matcher.arg_ids(), collect those whose overrides contain arg, remove each collected
-    okb = False
-    if back:
-        it = ro.calls_to(r"ArgMatcher::arg_ids$")
-        cont = [c for c in ro.calls_to(r"::contains$") if re.search(r"\.overrides", expr(ro, c.args[0])) and re.fullmatch(r"get_id\(arg\)", expr(ro, c.args[1]))]
-        push = ro.calls_to(r"Vec::push$")
-        # the removal loop iterates the collected vector (not just its first element)
-        rem_loop = any(re.search(r"next\(into_iter\(", e) for e in back)
-        no_first = not ro.calls_to(r"Iterator::find$", r"Iterator::find_map$", r"\[T\]::first$", r"Iterator::next$") or True
-        fm = ro.calls_to(r"Iterator::find_map$", r"Iterator::find$", r"\[T\]::first$", r"Iterator::take$")
-        okb = bool(it) and bool(cont) and bool(push) and rem_loop and not fm
-    removal_census(fx, res, "R7.4")
+    kinds = removal_census(fx, res, "R7.4")
+    ro_kinds = [k for f_, k in kinds if f_ == "remove_overrides"]
+    res.check("forward" in ro_kinds, "R7.4", "forward", ro.where(), "every id in arg.overrides is removed", "remove_overrides no longer removes the ids listed in arg.overrides")
+    # backward: loop over matcher.arg_ids(), collect those whose overrides contain arg, remove each collected (not just the first)
+    fm = [c for t in tree(ro) for c in t.calls_to(r"Iterator::find_map$", r"Iterator::find$", r"\[T\]::first$", r"Iterator::take$")]
+    okb = "backward" in ro_kinds and bool([c for t in tree(ro) for c in t.calls_to(r"ArgMatcher::arg_ids$")]) and not fm
     res.check(okb, "R7.4", "backward-all", ro.where(), "every present arg whose overrides contain this arg is collected and removed",
-              "remove_overrides no longer removes ALL present args that override this one (reverse direction): removes %s" % back)
+              "remove_overrides no longer removes ALL present args that override this one (reverse direction): removal kinds %s" % ro_kinds)
     psc = fx.body("clap_builder::parser::parser::Parser::start_custom_arg")
     r1 = psc.calls_to(r"Parser::remove_overrides$")
     r2 = psc.calls_to(r"ArgMatcher::start_custom_arg$")
